@@ -29,12 +29,12 @@ func init() { modes["c07"] = runC07 }
 
 var c07P = new(big.Int).Exp(big.NewInt(10), big.NewInt(18), nil)
 
-func pow10(e int) math.Int {
+func c07Pow10(e int) math.Int {
 	return math.NewIntFromBigInt(new(big.Int).Exp(big.NewInt(10), big.NewInt(int64(e)), nil))
 }
 
 // log-uniform integer in [1, 10^maxExp]
-func logUniform(r *rand.Rand, maxExp int) math.Int {
+func c07LogUniform(r *rand.Rand, maxExp int) math.Int {
 	e := r.Intn(maxExp + 1)
 	lo := new(big.Int).Exp(big.NewInt(10), big.NewInt(int64(e)), nil)
 	// lo * (1 + u*9) with u in [0,1) at 1e-9 resolution
@@ -70,10 +70,10 @@ func runC07(t *testing.T, seed int64, n int, out *Out) {
 		var users [3]sdk.AccAddress
 		for i := range users {
 			users[i] = sdk.AccAddress(detKey(seed, 2_000_000+seq*8+i).PubKey().Address())
-			w.Fund(ctx, users[i], sdk.NewCoins(sdk.NewCoin("uusdc", pow10(26))))
+			w.Fund(ctx, users[i], sdk.NewCoins(sdk.NewCoin("uusdc", c07Pow10(26))))
 		}
 		borrower := sdk.AccAddress(detKey(seed, 2_000_000+seq*8+7).PubKey().Address())
-		w.Fund(ctx, borrower, sdk.NewCoins(sdk.NewCoin("uusdc", pow10(26))))
+		w.Fund(ctx, borrower, sdk.NewCoins(sdk.NewCoin("uusdc", c07Pow10(26))))
 		params := sstypes.DefaultParams()
 		params.InterestRate = math.LegacyMustNewDecFromStr(irChoices[r.Intn(len(irChoices))])
 		k.SetParams(ctx, params)
@@ -203,7 +203,7 @@ func runC07(t *testing.T, seed int64, n int, out *Out) {
 			case 1, 2: // a/rate close to k + 1/2 : a = (2k+1)·r/(2P) + {-1,0,1}
 				kk := big.NewInt(int64(2*r.Intn(6) + 1))
 				if r.Intn(3) == 0 {
-					kk = new(big.Int).Add(new(big.Int).Mul(logUniform(r, 20).BigInt(), big.NewInt(2)), big.NewInt(1))
+					kk = new(big.Int).Add(new(big.Int).Mul(c07LogUniform(r, 20).BigInt(), big.NewInt(2)), big.NewInt(1))
 				}
 				v := new(big.Int).Mul(kk, rr)
 				v.Quo(v, new(big.Int).Mul(big.NewInt(2), c07P))
@@ -213,17 +213,17 @@ func runC07(t *testing.T, seed int64, n int, out *Out) {
 				}
 				return math.NewIntFromBigInt(v)
 			case 3: // huge
-				return pow10(24).AddRaw(int64(r.Intn(3)) - 1)
+				return c07Pow10(24).AddRaw(int64(r.Intn(3)) - 1)
 			case 4: // comparable to the vault
 				tv := k.GetParams(ctx).TotalValue
 				if tv.IsPositive() {
 					return tv.MulRaw(int64(1 + r.Intn(300))).QuoRaw(100).AddRaw(1)
 				}
-				return logUniform(r, sizeExp)
+				return c07LogUniform(r, sizeExp)
 			case 5:
-				return logUniform(r, 24)
+				return c07LogUniform(r, 24)
 			default:
-				return logUniform(r, sizeExp+1)
+				return c07LogUniform(r, sizeExp+1)
 			}
 		}
 		unbondAmount := func(u int) math.Int {
@@ -242,7 +242,7 @@ func runC07(t *testing.T, seed int64, n int, out *Out) {
 			case 4, 5: // s·rate close to k + 1/2 : s = (2k+1)·P/(2r) + {-1,0,1}
 				kk := big.NewInt(int64(2*r.Intn(6) + 1))
 				if r.Intn(3) == 0 {
-					kk = new(big.Int).Add(new(big.Int).Mul(logUniform(r, 20).BigInt(), big.NewInt(2)), big.NewInt(1))
+					kk = new(big.Int).Add(new(big.Int).Mul(c07LogUniform(r, 20).BigInt(), big.NewInt(2)), big.NewInt(1))
 				}
 				v := new(big.Int).Mul(kk, c07P)
 				v.Quo(v, new(big.Int).Mul(big.NewInt(2), rr))
@@ -284,7 +284,7 @@ func runC07(t *testing.T, seed int64, n int, out *Out) {
 				if room.IsPositive() {
 					v = room.MulRaw(int64(1 + r.Intn(100))).QuoRaw(100)
 				} else {
-					v = logUniform(r, 6)
+					v = c07LogUniform(r, 6)
 				}
 			}
 			if !v.IsPositive() {
@@ -315,14 +315,14 @@ func runC07(t *testing.T, seed int64, n int, out *Out) {
 		}
 
 		// the sequence ------------------------------------------------------------------
-		first := logUniform(r, sizeExp)
+		first := c07LogUniform(r, sizeExp)
 		if r.Intn(4) == 0 {
-			first = pow10(sizeExp)
+			first = c07Pow10(sizeExp)
 		}
 		doBond(0, first, nil) // u0: first deposit at supply 0 (rate 0 -> 1), passive afterwards
 		if setup == "gift" {
 			// rate in (1, 10]: gift = first · x, x log-uniform-ish with 18+ digits
-			g := first.Mul(logUniform(r, 18)).Quo(pow10(18)).MulRaw(int64(1 + r.Intn(9))).AddRaw(int64(r.Intn(7)))
+			g := first.Mul(c07LogUniform(r, 18)).Quo(c07Pow10(18)).MulRaw(int64(1 + r.Intn(9))).AddRaw(int64(r.Intn(7)))
 			if g.IsPositive() {
 				doGift(g)
 			}
@@ -358,7 +358,7 @@ func runC07(t *testing.T, seed int64, n int, out *Out) {
 				doAccrue()
 			default:
 				if setup == "gift" {
-					doGift(logUniform(r, sizeExp+1))
+					doGift(c07LogUniform(r, sizeExp+1))
 				} else {
 					advance()
 					doAccrue()
